@@ -433,6 +433,7 @@ def run_shard(spec):
         try:
             from . import c18_real
             c18_real.run(rng, out, 6 if spec["tier"] == "quick" else 40)
+            c18_real.run_composite(rng, out, 80 if spec["tier"] == "quick" else 600)
         except ImportError:
             pass
     out["violations"].extend(instrument.VIOLATIONS)
